@@ -411,8 +411,8 @@ theorem not_mem_keys_of_lookup_none {β : Type} {l : List (String × β)} {k : S
 
 theorem iaSetterExists_true : iaSetterExists = true := by decide
 
-theorem exportInit_plain {d d' : SDoc} {name : String} {f : PyFn} (hn : isPlainName name = true)
-    (h : exportInit d name f = .ok d') :
+theorem exportInit_plain {pre : String} {d d' : SDoc} {name : String} {f : PyFn} (hn : isPlainName name = true)
+    (h : exportInit pre d name f = .ok d') :
     sbmlifyFn f = .ok (mathOf f) ∧ d' = { d with inits := d.inits ++ [(name, mathOf f)] } := by
   simp only [exportInit, escapeId_plain _ hn, iaSetterExists_true, bind, Except.bind, pure, Except.pure] at h
   cases hm : sbmlifyFn f with
